@@ -599,6 +599,30 @@ func (te *TEnv) call(x *ECall) TV {
 			fr := &frame{vc: vc}
 			return TV{t: fr.makeIface(t, Val{t: a.t}), sort: sortIface}
 		}
+	case "mk":
+		// mk("T", f1, f2, ...): struct value of type T
+		if len(x.Args) >= 1 {
+			sv, ok := x.Args[0].(*EStr)
+			if !ok {
+				return te.fail("mk needs a type string")
+			}
+			t := te.resolveType(sv.V)
+			if t == nil {
+				return te.fail("unknown type %q", sv.V)
+			}
+			si := reg.structInfoOf(t)
+			if si == nil || len(si.fields) != len(x.Args)-1 {
+				return te.fail("mk(%s): wrong number of fields", sv.V)
+			}
+			if len(si.fields) == 0 {
+				return TV{t: ctor(si), sort: si.sort, gt: t}
+			}
+			var as []string
+			for i := 1; i < len(x.Args); i++ {
+				as = append(as, arg(i).t)
+			}
+			return TV{t: "(" + ctor(si) + " " + strings.Join(as, " ") + ")", sort: si.sort, gt: t}
+		}
 	case "ite":
 		if need(3) {
 			c, a, b := te.formula(x.Args[0]), arg(1), arg(2)
